@@ -7,6 +7,20 @@ PKGS = {
 }
 
 PROPS = {
+    "C02": {
+        "harnesses": [
+            {"pkg": "bt", "name": "VH_C02_Preimage", "quick": {"params": {"IN": 2, "OUT": 2, "S": 1}}, "thorough": {"params": {"IN": 3, "OUT": 3, "S": 2}}},
+        ],
+        "validate_tests": [{"pkg": "bt", "run": "TestVerifRefValidate"}],
+        "assumptions": [],
+    },
+    "C03": {
+        "harnesses": [
+            {"pkg": "bt", "name": "VH_C03_Legacy", "quick": {"params": {"IN": 2, "OUT": 2, "S": 1}}, "thorough": {"params": {"IN": 3, "OUT": 3, "S": 2}}},
+        ],
+        "validate_tests": [{"pkg": "bt", "run": "TestVerifRefValidate"}],
+        "assumptions": [],
+    },
     "C09": {
         "harnesses": [
             {"pkg": "bt", "name": "VH_C09_Stream", "quick": {"params": {"N": 14}}, "thorough": {"params": {"N": 22}}},
